@@ -447,7 +447,7 @@ fn thread_cpu_ticks() -> Option<u64> {
 /// size of the unfolded tree (2^d). The result is never printed here (printing unfolds by definition);
 /// it is reduced by a path of d first members. Decided on the CPU time of the searching thread with a
 /// margin of six orders of magnitude: on the unchanged code every level takes microseconds; a level that
-/// burns more than two CPU seconds is reported and ends the sweep.
+/// burns more than one CPU second is reported and ends the sweep.
 fn shared_result_monitor(rep: &mut Report, max_level: usize) {
     const FAMS: [(&str, &str, &str, &str); 8] = [
         ("list-pipe", "[@, @]", " | ", "[0]"),
@@ -490,13 +490,13 @@ fn shared_result_monitor(rep: &mut Report, max_level: usize) {
                     break;
                 }
             }
-            if used > 200 {
+            if used > 100 {
                 rep.violation(
                     "C05/evaluation-time-follows-the-unfolded-size-of-a-shared-result",
                     json!({"family": fam, "level": d, "cpu_seconds_of_this_search": used as f64 / 100.0, "expression_head": text.chars().take(120).collect::<String>(),
                            "note": "levels below took at most a few ticks; the result has O(level) distinct nodes"}),
                 );
-                break;
+                return; // one family is enough: every further one would burn seconds again
             }
             reached = d;
             rep.nontrivial(refimpl::rng::fnv(format!("shared|{}|{}", fam, d).as_bytes()));
